@@ -338,6 +338,62 @@ def shapes(tier):
     return out
 
 
+# ---- (quote d) through the real compiler, macro expander and run loop: "quoting d and evaluating it returns d unchanged"
+QUOTED = ['(let ((x K)) x)', '(a (when b K) d)', '(cond (else K))', '(begin)', '(K (or) (and x))', '(lambda (x) x)', '(if)', '(define x K)', '(quote x)', '(K "s" #t (1 . 2))',
+          '((let* () K))', '(case K ((1) 2))', '(unless)', '(1 (letrec ((f K)) f) . delay)', '(define-syntax K)', '(set! let K)']
+
+
+def make_evalquote_harness(prog, ws_src, src):
+    from . import compilefab as CF
+    from .vmfab import Fab
+    fab = Fab(prog)
+    C = CF.Cells(prog)
+    EVAL = prog.resolve_crate('Vm::eval'); LB = prog.resolve_crate('Vm::load_builtins')
+    prelude = CF.read_all(open(ws_src + '/marwood/prelude.scm').read())
+
+    def subst(sx, env):
+        if isinstance(sx, list): return [subst(x, env) for x in sx]
+        if isinstance(sx, tuple) and sx[0] == 'sym' and sx[1] in env: return env[sx[1]]
+        if isinstance(sx, tuple) and sx[0] == 'dotted': return ('dotted', [subst(x, env) for x in sx[1]], subst(sx[2], env))
+        return sx
+
+    def harness(it):
+        f = fab
+        vm = f.vm(f.heap([f.vc('Nil')], 4096), f.stack([f.vc('Undefined') for _ in range(64)], 0))
+        vb = Cell(vm)
+        it.call(LB, [Ref(vb)])
+        for fm in prelude:
+            r = it.call(EVAL, [Ref(vb), Ref(Cell(C.of(fm)))])
+            if r.var != 0: raise Unsupported('the prelude does not evaluate through the encoding: %r' % (r,))
+        K = z3.BitVec('K', 64)
+        env = {'K': C.cv('Number', Agg('Number', 0, [K]))}
+        d = C.of(subst(CF.read_all(src)[0], env))
+        prog_ = C.of([('sym', 'quote'), d])
+        r = it.call(EVAL, [Ref(vb), Ref(Cell(prog_))])
+        m = it.witness()
+        kv = m.eval(K, model_completion=True).as_signed_long() if m is not None else 0
+        req = {'cmd': 'evalquote', 'src': src, 'K': kv}
+        if r.var != 0:
+            return {'what': "evaluating (quote %s) fails: %r" % (src, r), 'key': 'quoted-datum-does-not-evaluate', 'request': req}
+        diff = same(it, C.of(subst(CF.read_all(src)[0], env)), r.f[0])
+        if diff is not None:
+            return {'what': "(quote %s) evaluates to a different datum: %s" % (src, diff if isinstance(diff, str) else diff[0]), 'key': 'quoted-datum-changed-by-evaluation', 'request': req}
+        it.ghost['tags'] = ['quote-eval-identity']
+        return None
+    return harness
+
+
+def native_evalquote(replay, req):
+    src = req['src'].replace('K', str(req.get('K', 0)))
+    replay.ask('newvm')
+    w = replay.ask('eval ' + hexs("(quote %s)" % src))
+    if w.startswith(('PANIC', 'ABORT')): return True, "(quote %s) => %s" % (src, w[:100])
+    if not w.startswith('OK '): return True, "(quote %s) => %s (a quoted datum must evaluate to itself)" % (src, unhexs(w.split()[2]) if len(w.split()) > 2 else w[:80])
+    written = unhexs(w.split()[1])
+    norm = lambda t: ' '.join(t.replace("'x", '(quote x)').split())
+    return norm(written) != norm(src), "(quote %s) evaluates to %s" % (src, written)
+
+
 def run(chk, ws, prog, tier, replays):
     dev, rel = replays
     models_vm.install(prog); models_num.install(prog); models_fmtnum.install(prog)
@@ -366,13 +422,26 @@ def run(chk, ws, prog, tier, replays):
             if b1 is None and b2 is None:
                 chk.inconclusive.append('%s: %s (%s)' % (name, v['what'], d1)); continue
             chk.violation(v['key'], (d1 if b1 else d2) + ' | ' + v['what'], v['request'], bool(b1) or bool(b2))
+    eq_jobs = [('eval-quote ' + src, make_evalquote_harness(prog, ws.src(), src), on_panic) for src in QUOTED]
+    for name, res in explore_many(prog, [(n, h, {'on_panic': p, 'render_fmt': False, 'step_limit': 30000000}) for n, h, p in eq_jobs], parallel=14, nproc_each=1):
+        print('  harness %-40s %s' % (name, res.summary()), flush=True)
+        chk.add_result(name, res, FUNCTIONS + ['vm::Vm::{eval,prepare_eval,run}', 'vm::compile::Vm::{compile_runnable,compile,transform,transform_procedure_application,compile_expression,compile_quote}', 'vm::transform::Transform::*', 'vm::heap::Heap::{put_cell,get_as_cell}', 'prelude.scm of the current tree'],
+                       {'datum': name[11:], 'symbolic': 'the fixnum leaf K', 'vm': 'builtins and the whole prelude loaded by the real VM from MIR (all prelude macros are bound)'}, nontrivial=res.completed)
+        for v in res.violations:
+            if seen.get(v['key'], 0) >= 2: continue
+            seen[v['key']] = seen.get(v['key'], 0) + 1
+            b1, d1 = native_evalquote(dev, v['request']); b2, d2 = native_evalquote(rel, v['request'])
+            chk.violation(v['key'], (d1 if b1 else d2) + ' | ' + v['what'], v['request'], bool(b1) or bool(b2))
     chk.assumptions += ['integer printers / parsers of std and num are modelled by the defining property of positional notation (see C16)',
                         'datum shapes are enumerated (stated per harness); the leaves are solver variables']
     chk.outside += ['NaN and infinities; the digits of a printed double (library axiom)', 'shapes beyond the enumerated ones (depth > 3, thorough 4; more than 3 elements)', 'strings longer than 2 (thorough 3) chars',
-                    'symbols longer than 3 (thorough 4) chars', 'evaluation of (quote d) through the compiler and the run loop (the heap trip is put_cell / get_as_cell only)']
+                    'symbols longer than 3 (thorough 4) chars', 'evaluation of (quote d) through the compiler and the run loop is covered for 16 quoted lists headed by or containing every prelude macro keyword and core form (symbolic fixnum leaf); other shapes take the heap trip put_cell / get_as_cell only']
 
 
 def replay_request(req, replays):
+    if req.get('cmd') == 'evalquote':
+        b1, d1 = native_evalquote(replays[0], req); b2, d2 = native_evalquote(replays[1], req)
+        return bool(b1) or bool(b2), d1 if b1 else d2
     b1, d1 = native_verdict(replays[0], req)
     b2, d2 = native_verdict(replays[1], req)
     return bool(b1) or bool(b2), d1 if b1 else d2
